@@ -25,6 +25,10 @@ class SchemaDispatcher(Dispatcher):
         ev.assume.append((_re.compile(r"^None in BASIC_TYPES$"), False))  # BASIC_TYPES = {str, int, float, bool}
         ev.inline_depth = 24  # nested Unpack[...] layouts recurse get_schema -> creators -> on_tuple three levels deep
         ev.max_recursion = 10
+        # budgets: the largest catalogue entry takes ~700 statement steps on the current tree; a change that makes the
+        # evaluation explode is reported as undecided for that entry after seconds, not after an hour
+        ev.max_steps = 8000
+        ev.max_paths = 400
         mi = repo.module(M_SCHEMA)
         self.creators = [repo.func(M_SCHEMA, n.name) for n in mi.tree.body
                          if isinstance(n, ast.FunctionDef) and any(ast.unparse(d) == "register" for d in n.decorator_list)]
